@@ -69,6 +69,10 @@ class _TabulationCutoff(object):
     dr = _get_or_none(self._dr_attr, cp_tabulation_section, float)
     cutoff = _get_or_none(self._cutoff_attr, cp_tabulation_section, float)
 
+    for name, value in ((self._dr_attr, dr), (self._cutoff_attr, cutoff)):
+      if not value is None and (value != value or value in (float("inf"), float("-inf"))):
+        raise ConfigParserException("'{name}' in [Tabulation] section of potential definition must be a finite number.".format(name = name))
+
     # A value of 0 is a value that was given (and is refused below), not an absent one.
     if not nr is None and not dr is None and not cutoff is None:
       raise ConfigParserException("'{cutoff}', '{nr}' and '{dr}' cannot all be spcified in [Tabulation] section of potential definition.".format(**self._template_dict))
